@@ -40,6 +40,11 @@ type VerifCADelegate struct {
 	// OnApply, when set, is called around every applied CA request (before=true, then
 	// before=false with the result). Used by the harness to record pre/post root sets.
 	OnApply func(before bool, a VerifCAApplied)
+
+	// BeforeApply, when set, is called with the (decoded) request before its index is allocated.
+	// The harness uses it to commit a competing CA request ahead of the caller's one, the way a
+	// concurrent writer outside the manager's lock (Server.pruneCARoots) would win the race.
+	BeforeApply func(req *structs.CARequest)
 }
 
 var _ caServerDelegate = (*VerifCADelegate)(nil)
@@ -77,6 +82,9 @@ func (d *VerifCADelegate) ApplyCARequest(req *structs.CARequest) (interface{}, e
 	var dec structs.CARequest
 	if err := structs.Decode(buf[1:], &dec); err != nil {
 		return nil, err
+	}
+	if d.BeforeApply != nil {
+		d.BeforeApply(&dec)
 	}
 	idx := d.NextIndex()
 	if d.OnApply != nil {
